@@ -37,7 +37,7 @@ func H07_envcheck() {
 	hx.ConcreteTimes = true
 	hx.NumPool = []float64{1, 2.5}
 	hx.MaxLenQuick = 2
-	mut := sv.Choice("mutation", 7)
+	mut := sv.Choice("mutation", 9)
 	venv := val.NewEnv()
 	var xval *val.Val
 	conforms := true
@@ -62,13 +62,22 @@ func H07_envcheck() {
 	case 6: // y of another type
 		xval = hx.AnyVal(tx, "x")
 		conforms = false
+	case 7: // x missing, and as many extra names as compile-time names (a misspelt key)
+		venv.Put("X", hx.AnyVal(tx, "x"))
+		venv.Put("z", val.Str("extra"))
+		conforms = false
+	case 8: // y missing, extra names in its place
+		xval = hx.AnyVal(tx, "x")
+		venv.Put("Y", val.Num(1))
+		venv.Put("yy", val.Num(2))
+		conforms = false
 	}
 	hx.NumPool = nil
 	if xval != nil {
 		venv.Put("x", xval)
 	}
 	switch mut {
-	case 4:
+	case 4, 8:
 	case 6:
 		venv.Put("y", val.Str("not a number"))
 	default:
@@ -171,6 +180,74 @@ func H07_host() {
 			sv.Reach("mismatching")
 			sv.Assert("mismatching-environment-rejected", err != nil)
 			sv.Assert("nothing-evaluated", probed == before)
+		}
+	}
+}
+
+type c07In struct {
+	X interface{} `yae:"x"`
+}
+type c07MapHost struct {
+	N float64          `yae:"n"`
+	M map[string]c07In `yae:"m"`
+}
+
+// H07_hostmap: a binding that is a Go map of structs whose converted type
+// depends on what an interface field holds. Entries that convert to different
+// types are inconsistent data: the invocation returns an error and evaluates
+// nothing - also when the entry visited first happens to have the
+// compile-time type (every iteration order is explored).
+func H07_hostmap() {
+	e := exprWith(sv.Choice("backend", hx.NBackends))
+	probed := 0
+	a := types.TyVar("a")
+	e.RegisterFun(val.Fun(types.Fun("probe", []*types.Type{a}, a), func(args ...*val.Val) *val.Val {
+		probed++
+		return args[0]
+	}))
+	mk := func(kind int, name string) c07MapHost {
+		h := c07MapHost{N: sv.Float64(name + ".n"), M: map[string]c07In{}}
+		switch kind {
+		case 0: // every entry holds a number
+			h.M["a"], h.M["b"] = c07In{1.5}, c07In{2}
+		case 1: // the first entry conforms, the second holds a string
+			h.M["a"], h.M["b"] = c07In{1.5}, c07In{"s"}
+		case 2: // the other way round
+			h.M["a"], h.M["b"] = c07In{"s"}, c07In{1.5}
+		default: // every entry holds a string: consistent, but another type
+			h.M["a"], h.M["b"] = c07In{"s"}, c07In{"t"}
+		}
+		return h
+	}
+	sample := mk(0, "sample")
+	c, err := e.Compile("probe(n) + len(m)", sample)
+	sv.Assert("compiles", err == nil)
+	if err != nil {
+		return
+	}
+	for k := 0; k < 2; k++ {
+		kind := sv.Choice("call"+hx.Itoa(k), 4)
+		h := mk(kind, "env"+hx.Itoa(k))
+		// natively Go's own random iteration order has to be sampled
+		for rep := 0; rep < sv.Repeats(40); rep++ {
+			before := probed
+			var r *val.Val
+			sv.MapOrder(1)
+			cls := sv.Outcome(func() { r, err = c(h) })
+			sv.MapOrder(0)
+			sv.Assert("callable-does-not-panic", cls == "ok")
+			if cls != "ok" {
+				return
+			}
+			if kind == 0 {
+				sv.Reach("conforming")
+				sv.Assert("conforming-environment-accepted", err == nil)
+				sv.Assert("evaluates-normally", err != nil || (r != nil && r.Type == types.Num && sv.Same(r.Num().V, h.N+2) && probed == before+1))
+			} else {
+				sv.Reach("mismatching")
+				sv.Assert("mismatching-environment-rejected", err != nil)
+				sv.Assert("nothing-evaluated", probed == before)
+			}
 		}
 	}
 }
